@@ -6,7 +6,9 @@ ID = "C04"
 LEVEL = "proof"
 RULE = ("bounded-exhaustive histories over a 14-operation alphabet (8 list mutators, set_version, set_nlocktime, one sighash per "
         "cache-filling flag class: 0x41 fills all three slots, 0x42 and 0x43 the prevouts slot, 0xc1 the outputs slot) up to length 3 "
-        "(quick: all of length <= 2 and a sample of length 3) / 4 (thorough: all of length <= 3, of length 4 every history that ends in a sighash step after an earlier one, plus a sample), random histories of length 5-60 over all 14 flags, clone, "
+        "(quick: all of length <= 2 and a sample of length 3) / 4 (thorough: all of length <= 3, of length 4 every history that ends in a sighash step after an earlier one, plus a sample), targeted histories [sighash f k; mutator at position k-1/k/k+1 (single or bulk, inputs or outputs); sighash f k; sighash 0x41] for 12 flags x 3 indices, "
+        "every other &mut self entry point (add_inputs/add_outputs incl. empty, public hash_inputs, sign, sign_with_k, get_outpoints, the clones returned by set_version/set_nlocktime), "
+        "random histories of length 5-60 over all 14 flags, clone, "
         "all mutators with in-range positions, out-of-range sighash indices, and a few panicking (API misuse) histories; every step compares "
         "preimage, serialisation, fresh-copy preimage and the three cache slots (hook); non-trivial = the history contains a sighash "
         "step that returns a preimage; distinct by (op, arguments)")
@@ -26,6 +28,44 @@ def in_fields(rng, tag):
 
 def out_fields(rng, tag):
     return "%d.%s" % (rng.choice([tag, 1000 + tag, 2 ** 40 + tag, G.U64 - 1 - tag]), rng.choice(["51", "76a914+l:%d:20+88ac" % tag, "6a", ""]))
+
+
+def in_elem(rng, tag):
+    return in_fields(rng, tag).replace(".", ",")
+
+
+def out_elem(rng, tag):
+    return out_fields(rng, tag).replace(".", ",")
+
+
+TARGET_FLAGS = [0x41, 0x42, 0x43, 0xC1, 0xC2, 0xC3, 1, 2, 3, 0x81, 0x82, 0x83]
+
+
+def targeted(rng, tier):
+    """[sh f k; one mutator at a position next to k; sh f k; sh 0x41 0] on a 3-in/3-out transaction: every flag, every
+    input index k, every list mutator (single and bulk, inputs and outputs) at positions k-1, k, k+1"""
+    out = []
+    tag = 300
+    for f in TARGET_FLAGS:
+        for k in range(3):
+            muts = []
+            for pos in (k - 1, k, k + 1):
+                if 0 <= pos <= 3:
+                    muts += ["io.%d.%%O" % pos, "ii.%d.%%I" % pos]
+                if 0 <= pos <= 2:
+                    muts += ["so.%d.%%O" % pos, "si.%d.%%I" % pos]
+            muts += ["po.%O", "ao.%O", "pi.%I", "ai.%I", "aos.%o", "aos.%o/%o", "ais.%i", "ais.%i/%i", "aos.", "ais."]
+            if tier == "quick" and f not in (0x41, 0x42, 0x43, 0xC1, 0xC2, 0xC3):
+                # legacy flags never touch the cache in the current code: in the quick tier only the same-position mutators
+                muts = ["io.%d.%%O" % k, "so.%d.%%O" % k, "ii.%d.%%I" % k, "si.%d.%%I" % k, "aos.%o", "ais.%i"]
+            for m in muts:
+                tag += 1
+                m = (m.replace("%O", out_fields(rng, tag)).replace("%I", in_fields(rng, tag))
+                      .replace("%o", out_elem(rng, tag), 1).replace("%o", out_elem(rng, tag + 500))
+                      .replace("%i", in_elem(rng, tag), 1).replace("%i", in_elem(rng, tag + 500)))
+                sh = "sh.%d.%d.76a9.1000" % (f, k)
+                out.append([sh, m, sh, "sh.65.0.76a9.1000"])
+    return out
 
 
 def base_tx(rng):
@@ -72,8 +112,24 @@ def random_history(rng, n):
             o = "sv.%d" % rng.randrange(2 ** 32)
         elif r < 0.96:
             o = "sl.%d" % rng.randrange(2 ** 32)
-        else:
+        elif r < 0.97:
             o = "cl"
+        else:
+            c = rng.randrange(8)
+            if c == 0:
+                n = rng.randrange(0, 3); o = "ais." + "/".join(in_elem(rng, tag * 10 + j) for j in range(n)); nin += n
+            elif c == 1:
+                n = rng.randrange(0, 3); o = "aos." + "/".join(out_elem(rng, tag * 10 + j) for j in range(n)); nout += n
+            elif c == 2:
+                o = "hi.%d" % rng.choice(ALL_FLAGS)
+            elif c == 3:
+                o = "go"
+            elif c == 4:
+                o = "svc.%d" % rng.randrange(2 ** 32)
+            elif c == 5:
+                o = "slc.%d" % rng.randrange(2 ** 32)
+            else:
+                o = "%s.%d.%d.%s.%d" % (rng.choice(["sg", "sk"]), rng.choice([0x41, 0x43, 0xC1, 0xC3, 1, 3, 0x83]), rng.randrange(nin + 1), rng.choice(["ac", "76a9"]), G.value(rng))
         if size + len(o) + 1 > 1900:
             break
         ops.append(o); size += len(o) + 1
@@ -97,7 +153,7 @@ def generate(rng, tier):
             # all histories with at least two sighash steps around a mutator, plus a sample of the rest
             core = [s for s in seqs if s[0] >= 10 and s[2] >= 10 and s[1] < 10]
             rest = [s for s in seqs if not (s[0] >= 10 and s[2] >= 10 and s[1] < 10)]
-            seqs = core + rng.sample(rest, 700)
+            seqs = core + rng.sample(rest, 450)
         if tier == "thorough" and n == 4:
             # every history that ends in a sighash step and has an earlier one (a cache can only go stale after it was filled), others sampled
             interesting = lambda s: s[3] >= 10 and any(k >= 10 for k in s[:3])
@@ -106,6 +162,19 @@ def generate(rng, tier):
             seqs = core + rng.sample(rest, 1500)
         for s in seqs:
             Hs([A[k] for k in s])
+    # targeted: same-position and neighbouring-position mutators between two identical sighash calls; bulk mutators
+    t33 = G.mk_tx(rng, 3, 3, nonpal=True).hex()
+    for h in targeted(rng, tier):
+        Hs(h, t33)
+    # the remaining &mut self entry points: bulk adds after every cache-filling class, public hash_inputs, sign / sign_with_k,
+    # get_outpoints, continuing with the clone returned by set_version / set_nlocktime
+    for f in [65, 66, 67, 193, 1]:
+        Hs(["sh.%d.0.76a9.1000" % f, "ais." + in_elem(rng, 61) + "/" + in_elem(rng, 62), "sh.%d.0.76a9.1000" % f, "sh.65.1.76a9.1000"], t33)
+        Hs(["sh.%d.0.76a9.1000" % f, "aos." + out_elem(rng, 63) + "/" + out_elem(rng, 64), "sh.%d.0.76a9.1000" % f, "sh.65.1.76a9.1000"], t33)
+        Hs(["hi.%d" % f, "si.0." + in_fields(rng, 65), "hi.%d" % f, "sh.%d.0.ac.5" % f, "ais." + in_elem(rng, 66), "hi.%d" % f, "hi.65"], t33)
+        for sg in ("sg", "sk"):
+            Hs(["%s.%d.1.76a9.1000" % (sg, f), "so.1." + out_fields(rng, 67), "%s.%d.1.76a9.1000" % (sg, f), "si.1." + in_fields(rng, 68), "%s.%d.1.76a9.1000" % (sg, f), "%s.%d.7.76a9.1000" % (sg, f)], t33)
+        Hs(["sh.%d.0.76a9.1000" % f, "svc.9", "go", "slc.77", "cl", "sh.%d.0.76a9.1000" % f, "sh.65.0.76a9.1000"], t33)
     # other starting shapes for the short histories
     for (nin, nout) in [(1, 1), (3, 1), (1, 3)]:
         t = G.mk_tx(rng, nin, nout).hex()
